@@ -54,6 +54,7 @@ type sendInfo struct {
 	feeAmt       *big.Int
 	call         callKind
 	callback     bool
+	cbBad        bool // the callback address reverts on the callback
 	receiver     common.Address
 	expectFail   string // non-empty: the generator expects this send to fail (probe only)
 	agentFee     *big.Int
@@ -337,6 +338,12 @@ func (w *world) buildSend(op kernel.Op) (*xchain, *sendInfo, []byte, *big.Int) {
 	}
 	if si.callback {
 		ccd.CallbackAddress = c.cbCounter
+		if (op.Arg(7)/2)%4 == 3 {
+			// a callback address that cannot handle the callback (a token contract): the acknowledgement's
+			// processing on the source fails as a whole, it must not be half applied
+			ccd.CallbackAddress = c.origin.Addr
+			si.cbBad = true
+		}
 	}
 	switch si.call {
 	case callCounter:
